@@ -13,6 +13,7 @@ import (
 	"path/filepath"
 	"strings"
 	"sync"
+	"sync/atomic"
 
 	"github.com/go-python/gpython/py"
 	"github.com/go-python/gpython/stdlib/marshal"
@@ -46,6 +47,21 @@ type context struct {
 	closed    bool
 	running   int // number of admitted executions that have not finished
 	done      chan struct{}
+	depth     int32 // nested Python frames being run (see py.RecursionLimiter)
+}
+
+// EnterFrame counts a Python frame about to run; RuntimeError beyond py.MaxRecursionDepth
+func (ctx *context) EnterFrame() error {
+	if atomic.AddInt32(&ctx.depth, 1) > py.MaxRecursionDepth {
+		atomic.AddInt32(&ctx.depth, -1)
+		return py.ExceptionNewf(py.RuntimeError, "maximum recursion depth exceeded")
+	}
+	return nil
+}
+
+// LeaveFrame is called when a frame counted by EnterFrame returns or yields
+func (ctx *context) LeaveFrame() {
+	atomic.AddInt32(&ctx.depth, -1)
 }
 
 // NewContext creates a new gpython interpreter instance context.
